@@ -57,9 +57,16 @@ func (self Node) Len() (int, error) {
 func (self Node) len() (int, error) {
 	switch self.t {
 	case thrift.LIST, thrift.SET:
+		// NOTICE: the node may hold less than a container header
+		if self.l < 5 {
+			return -1, errNode(meta.ErrRead, "", nil)
+		}
 		b := rt.BytesFrom(unsafe.Pointer(uintptr(self.v)+uintptr(1)), 4, 4)
 		return int(thrift.BinaryEncoding{}.DecodeInt32(b)), nil
 	case thrift.MAP:
+		if self.l < 6 {
+			return -1, errNode(meta.ErrRead, "", nil)
+		}
 		b := rt.BytesFrom(unsafe.Pointer(uintptr(self.v)+uintptr(2)), 4, 4)
 		return int(thrift.BinaryEncoding{}.DecodeInt32(b)), nil
 	default:
